@@ -61,10 +61,11 @@ Definition is_flush o := match o with BFlush => true | _ => false end.
 Definition is_setup o := match o with BSetup => true | _ => false end.
 Definition is_crash o := match o with BPanic | BHang | BFuel => true | _ => false end.
 Definition is_dgok (e : cev) : bool := match e with CRecv DgOk _ _ => true | _ => false end.
+Definition is_ev o := match o with BEv _ => true | _ => false end.
 
 Definition shape_ok (c : cs) (e : cevx) : bool :=
   let '(c', l) := cstep c e in
-  negb (dead c') && negb (has is_crash l) &&
+  negb (dead c') && negb (has is_crash l || has is_ev l) &&
   if is_dgok (ev e) then
     Bool.eqb (reader c') (reader c) &&
     match l with
